@@ -510,14 +510,14 @@ func tryAPIDamage(c *DmgAPICase, st *Stats, m *Model, opts klevdb.Options, files
 		}
 	}
 	if d.overwrite && len(d.desc)%3 == 0 {
-		deleteThenReread(st, m, l, segs, d, calls)
+		deleteThenReread(st, m, l, segs, d, calls, pristine)
 	}
 }
 
 // deleteThenReread: a Delete of an undamaged offset stored in the damaged segment file either fails or
 // succeeds, but afterwards still no read may return a message that differs from what was published (a
 // rewrite must not launder damaged bytes under a fresh checksum).
-func deleteThenReread(st *Stats, m *Model, l klevdb.Log, segs []SegInfo, d apiDamage, calls []apiCall) {
+func deleteThenReread(st *Stats, m *Model, l klevdb.Log, segs []SegInfo, d apiDamage, calls []apiCall, pristine []apiResult) {
 	var victim int64 = -1
 	for _, r := range segs[d.seg].Recs {
 		if _, live := m.Find(r.Off); live && !d.damaged[r.Off] {
@@ -540,12 +540,26 @@ func deleteThenReread(st *Stats, m *Model, l klevdb.Log, segs []SegInfo, d apiDa
 		}
 		gone[x.Offset] = true
 	}
-	for _, cl := range calls {
+	for ci, cl := range calls {
 		got := cl.run(l)
 		for _, g := range got.msgs {
 			x, ok := m.Find(g.Offset)
 			if !ok || !x.Eq(g) || gone[g.Offset] {
 				cfail("safety", "after Delete(%d) in the damaged segment (result %v), %v returned %+v; published at that offset: %+v (live=%v, deleted now=%v)", victim, err, cl, FromMessage(g), x, ok, gone[g.Offset])
+			}
+		}
+		// the overwritten record is still overwritten: a call whose answer would include it still has to fail - a
+		// rewrite must not make the damage disappear together with the record (and what follows it)
+		hit := false
+		for _, g := range pristine[ci].msgs {
+			if d.damaged[g.Offset] {
+				hit = true
+			}
+		}
+		if hit {
+			st.Inc("mustfail_checks_after_delete")
+			if got.err == nil {
+				cfail("mustfail", "after Delete(%d) in the damaged segment (result %v), %v succeeded with %v although its undamaged answer %v includes an overwritten record (offsets %v)", victim, err, cl, msgOffsets(got.msgs), msgOffsets(pristine[ci].msgs), keysOf(d.damaged))
 			}
 		}
 	}
